@@ -154,6 +154,7 @@ func init() {
 			evs = append(evs, c22Ev{"write", v})
 		}
 		evs = append(evs, c22Ev{"read", 0}, c22Ev{"stop", 0})
+		c22OtherPart(c)
 		explore.Product(c.R, "event-bursts", explore.PartOpt{Bound: "bursts of 1..260 key events between two JOYP accesses", Domain: "4 event patterns x select values {10,20,00,30} written before or after the burst"},
 			func(yield func(c22Burst) bool) {
 				for pat := 0; pat < 4; pat++ {
